@@ -619,6 +619,92 @@ theorem cyc_g1_exc_div (a : Fp12 F) (h : IsCyc12 ξ a) (hg2 : a.c1.c0 = 0) (hg3 
   rw [eq_mul_inv_iff_mul_eq₀ hg3]
   linear_combination cyc_g1_exc ξ a h hg2
 
+/-! #### the repaired decompression is total on the cyclotomic subgroup
+
+Hypotheses on the field: 2 ≠ 0, ξ is not a square, −3 is a square (in fp2 every element of the prime field is one). -/
+
+/-- with a non-square ξ, a cyclotomic element with g2 = g3 = 0 has g4 = g5 = 0 -/
+theorem cyc_g2g3_zero (h2 : (2 : F) ≠ 0) (h3 : (3 : F) ≠ 0) (hns : ∀ y : F, y ^ 2 ≠ ξ) (ω : F) (hω : ω ^ 2 = -3)
+    (a : Fp12 F) (h : IsCyc12 ξ a) (hg2 : a.c1.c0 = 0) (hg3 : a.c0.c2 = 0) : a.c0.c1 = 0 ∧ a.c1.c2 = 0 := by
+  have hg1 := cyc_g1 ξ a h
+  rw [hg2, hg3] at hg1
+  have e : ξ * a.c1.c2 ^ 2 + 3 * a.c0.c1 ^ 2 = 0 := by linear_combination -hg1
+  by_cases h5 : a.c1.c2 = 0
+  · rw [h5] at e
+    have : a.c0.c1 ^ 2 = 0 := by
+      have : 3 * a.c0.c1 ^ 2 = 0 := by linear_combination e
+      exact (mul_eq_zero.mp this).resolve_left h3
+    exact ⟨pow_eq_zero_iff (two_ne_zero) |>.mp this, h5⟩
+  · exfalso
+    apply hns (ω * a.c0.c1 * (a.c1.c2)⁻¹)
+    have : ξ * a.c1.c2 ^ 2 = (ω * a.c0.c1) ^ 2 := by
+      rw [mul_pow, hω]; linear_combination e
+    field_simp
+    linear_combination -this
+
+/-- the only non-zero cyclotomic element whose four retained coefficients vanish is the identity -/
+theorem cyc_compressed_zero (h2 : (2 : F) ≠ 0) (hns : ∀ y : F, y ^ 2 ≠ ξ) (ω : F) (hω : ω ^ 2 = -3)
+    (a : Fp12 F) (h : IsCyc12 ξ a) (hne : NonZero12 a)
+    (z2 : a.c1.c0 = 0) (z3 : a.c0.c2 = 0) (z4 : a.c0.c1 = 0) (z5 : a.c1.c2 = 0) : a.c0.c0 = 1 ∧ a.c1.c1 = 0 := by
+  have e1 := h.r1a; have e2 := h.r1b
+  rw [z2, z3, z4, z5] at e1 e2
+  have hg1 : a.c1.c1 = 0 := by
+    by_contra hn
+    have hg0 : 2 * a.c0.c0 + 1 = 0 := by
+      have : a.c1.c1 * (2 * a.c0.c0 + 1) = 0 := by linear_combination -e2
+      exact (mul_eq_zero.mp this).resolve_left hn
+    -- then 4·ξ·g1² = −3, so ξ = (ω/(2·g1))²
+    have e : 4 * ξ * a.c1.c1 ^ 2 = ω ^ 2 := by
+      rw [hω]; linear_combination (-4 : F) * e1 + (3 - 2 * a.c0.c0) * hg0
+    apply hns (ω * (2 * a.c1.c1)⁻¹)
+    have h2g : (2 * a.c1.c1) ≠ 0 := mul_ne_zero h2 hn
+    field_simp
+    linear_combination -e
+  refine ⟨?_, hg1⟩
+  rw [hg1] at e1
+  have : a.c0.c0 * (a.c0.c0 - 1) = 0 := by linear_combination -e1
+  rcases mul_eq_zero.mp this with z0 | z0
+  · exact absurd ⟨z0, z4, z3, z2, hg1, z5⟩ hne
+  · linear_combination z0
+
+/-- **the repaired fp12_back_cyc decompresses every element of the cyclotomic subgroup** from any operand that carries
+    its four retained coefficients -/
+theorem fp12BackCycFixed_eq (h2 : (2 : F) ≠ 0) (h3 : (3 : F) ≠ 0) (hns : ∀ y : F, y ^ 2 ≠ ξ) (ω : F) (hω : ω ^ 2 = -3)
+    (a x : Fp12 F) (h : IsCyc12 ξ a) (hne : NonZero12 a)
+    (h01 : x.c0.c1 = a.c0.c1) (h02 : x.c0.c2 = a.c0.c2) (h10 : x.c1.c0 = a.c1.c0) (h12 : x.c1.c2 = a.c1.c2) :
+    fp12BackCycFixed fo nor x = a := by
+  have hg0 := cyc_g0 ξ a h hne
+  by_cases hg2 : a.c1.c0 = 0
+  · by_cases hg3 : a.c0.c2 = 0
+    · -- the identity
+      obtain ⟨z4, z5⟩ := cyc_g2g3_zero ξ h2 h3 hns ω hω a h hg2 hg3
+      obtain ⟨z0, z1⟩ := cyc_compressed_zero ξ h2 hns ω hω a h hne hg2 hg3 z4 z5
+      apply Fp12.ext' <;>
+      simp [fp12BackCycFixed, fieldOps, h01, h02, h10, h12, hg2, hg3, z4, z5, z0, z1]
+    · -- exceptional branch: g1 = 2·g4·g5/g3
+      have hg1 := cyc_g1_exc_div ξ a h hg2 hg3
+      have e11 : (a.c0.c1 * a.c1.c2 + a.c0.c1 * a.c1.c2) * (a.c0.c2)⁻¹ = a.c1.c1 := by
+        rw [hg1]; ring
+      apply Fp12.ext' <;>
+      simp only [fp12BackCycFixed, fieldOps, rOps_isZero, rOps_add, rOps_sub, rOps_mul, rOps_sqr, rOps_dbl, rOps_inv, rOps_one, h01, h02,
+        h10, h12, decide_eq_true_eq, hg2, hg3, if_true, if_false, Bool.false_eq_true, Bool.and_false, Bool.false_and, Bool.true_and,
+        decide_true, decide_false, e11]
+      rw [hg2] at hg0
+      linear_combination -hg0 + (0 : F) * hg2
+  · -- regular branch
+    have hg1 := cyc_g1 ξ a h
+    have h4 : a.c1.c0 + a.c1.c0 + (a.c1.c0 + a.c1.c0) ≠ 0 := by
+      have : a.c1.c0 + a.c1.c0 + (a.c1.c0 + a.c1.c0) = 2 * 2 * a.c1.c0 := by ring
+      rw [this]; exact mul_ne_zero (mul_ne_zero h2 h2) hg2
+    have e11 : (ξ * (a.c1.c2 * a.c1.c2) + (a.c0.c1 * a.c0.c1 - a.c0.c2 + (a.c0.c1 * a.c0.c1 - a.c0.c2) + a.c0.c1 * a.c0.c1)) *
+        (a.c1.c0 + a.c1.c0 + (a.c1.c0 + a.c1.c0))⁻¹ = a.c1.c1 := by
+      rw [mul_inv_eq_iff_eq_mul₀ h4]
+      linear_combination -hg1
+    apply Fp12.ext' <;>
+    simp only [fp12BackCycFixed, fieldOps, rOps_isZero, rOps_add, rOps_sub, rOps_mul, rOps_sqr, rOps_dbl, rOps_inv, rOps_one, h01, h02,
+      h10, h12, decide_eq_true_eq, hg2, if_false, Bool.false_eq_true, Bool.false_and, decide_false, e11]
+    linear_combination -hg0
+
 end backcyc
 
 /-! ### the relations from the p²-power map (abstractly)
